@@ -237,15 +237,29 @@ impl Insert {
             );
         }
         // Insert the new rows into the table.
+        let mut created = Vec::<ValueRef>::new();
         for values in new_rows.into_iter() {
             let keys: Vec<Value> = key_indices
                 .iter()
                 .map(|&index| values[index].clone())
                 .collect();
-            let row: Vec<ValueRef> = values
-                .into_iter()
-                .map(|value| ValueRef::create(value, string_pool))
-                .collect();
+            let mut row = Vec::<ValueRef>::with_capacity(values.len());
+            for value in values.into_iter() {
+                match ValueRef::try_create(value, string_pool) {
+                    Ok(value_ref) => {
+                        created.push(value_ref);
+                        row.push(value_ref);
+                    }
+                    Err(error) => {
+                        // Release the references taken so far, so that the
+                        // failed insert leaves the string pool as it was.
+                        for value_ref in created.into_iter() {
+                            value_ref.remove(string_pool);
+                        }
+                        return Err(error);
+                    }
+                }
+            }
             rows_map.insert(keys, row);
         }
         // Write the table back out to the file.
@@ -781,6 +795,20 @@ impl Update {
                 new_keys_set.insert(keys);
             }
         }
+        // Take one reference to each new value up front, so that running out
+        // of room in the string pool is detected before any row is modified.
+        let mut held = Vec::<ValueRef>::with_capacity(self.updates.len());
+        for (_, value) in self.updates.iter() {
+            match ValueRef::try_create(value.clone(), string_pool) {
+                Ok(value_ref) => held.push(value_ref),
+                Err(error) => {
+                    for value_ref in held.into_iter() {
+                        value_ref.remove(string_pool);
+                    }
+                    return Err(error);
+                }
+            }
+        }
         // Update the rows.
         for (value_refs, &update) in
             rows.iter_mut().zip(should_update.iter())
@@ -791,9 +819,13 @@ impl Update {
                         table.index_for_column_name(column_name).unwrap();
                     let value_ref = &mut value_refs[index];
                     value_ref.remove(string_pool);
-                    *value_ref = ValueRef::create(value.clone(), string_pool);
+                    *value_ref =
+                        ValueRef::try_create(value.clone(), string_pool)?;
                 }
             }
+        }
+        for value_ref in held.into_iter() {
+            value_ref.remove(string_pool);
         }
         // If primary keys changed, put the rows back into primary key order.
         if updates_keys {
